@@ -142,10 +142,16 @@ def solve_minor_model(
     model = lpinterface.model("AldyMinor", solver)
     debug_info = json[gene.name]["minor"][len(json[gene.name]["minor"])]
 
+    # Build the model in a fixed order: iterating sets of mutations follows the
+    # hash seed, which decided ties (and the tie-breaking weights below)
+    mutations = sorted(mutations)  # type: ignore
+
     # Establish minor alleles and their mutations
-    alleles: Dict[Tuple[SolvedAllele, int], Set[Mutation]] = {
-        (a, 0): set(gene.alleles[a.major].func_muts)
-        | set(gene.alleles[a.major].minors[a.minor].neutral_muts)
+    alleles: Dict[Tuple[SolvedAllele, int], List[Mutation]] = {  # type: ignore
+        (a, 0): sorted(
+            set(gene.alleles[a.major].func_muts)
+            | set(gene.alleles[a.major].minors[a.minor].neutral_muts)
+        )
         for a in alleles_list
     }
 
@@ -454,7 +460,7 @@ def solve_minor_model(
             o_penal += coverage.profile.minor_add * (1 + cnt / 1000000) * v[0]
             cnt += 1
     # ... and novel functional mutations from the major model...
-    for m in {m for a in VNEW for m in VNEW[a]}:
+    for m in sorted({m for a in VNEW for m in VNEW[a]}):
         vars = [
             VNEW[a][m][0]
             for a in VNEW
